@@ -663,7 +663,6 @@ Definition c04_valid (mm : Z) (d : decoded) : bool :=
           vars &&
   (zsum (map (var_len dims) recs) <=? I64_MAX) &&
   (check_vlens h =? NC_NOERR) &&
-  (dc_len d =? hdr_len h) &&        (* bytes consumed = ncmpio_hdr_len_NC of the decoded header *)
   (0 <? dc_len d) && (dc_len d <=? I64_MAX) && (hdr_req h <=? mm) &&
   match vars with
   | [] => true
